@@ -23,7 +23,7 @@ pub fn plans(prop: &str) -> Vec<Plan> {
         "C15" => vec![d(DProp::C15, false, 200_000, 4_000_000), d(DProp::C15, true, 200_000, 7 * 1_048_576)],
         "C06" => vec![h(HProp::C06, 400_000, 8_000_000)],
         "C13" => vec![h(HProp::C13, 200_000, 4_000_000)],
-        "C02" => vec![r(RProp::C02, 110_000, 4_000_000)],
+        "C02" => vec![r(RProp::C02, 90_000, 4_000_000)],
         "C08" => vec![r(RProp::C08, 160_000, 5_000_000)],
         "C09" => vec![r(RProp::C09, 70_000, 3_000_000)],
         "C11" => vec![r(RProp::C11Scalar, 100_000, 2_000_000), r(RProp::C11Pair, 100_000, 2_000_000), h(HProp::C11, 100_000, 2_000_000)],
